@@ -10,6 +10,7 @@ Exit codes (used by ./check): 0 held, 1 violation, 2 machinery failure.
 import concurrent.futures
 import json
 import os
+import re
 import shutil
 import subprocess
 import sys
@@ -182,6 +183,15 @@ class Res:
     def first(self, k, default=None):
         v = self.out.get(k)
         return v[0] if v else default
+
+    def compile_sig(self, key=None, n=70):
+        """Stable signature of the first compile error (state-specific names removed)."""
+        e = self.errors[0]
+        msg = e["message"]
+        if key:
+            msg = msg.replace(key, "<state>")
+        msg = re.sub(r"shard\d+", "<crate>", msg)
+        return "compile:%s:%s" % (e.get("code") or "", msg[:n])
 
     def brief_errors(self):
         return ["%s: %s" % (e.get("code") or "error", e["message"]) for e in self.errors]
